@@ -35,8 +35,22 @@ def meta_of(cs):
 # filters: direct evaluation (the specification side) and printers
 
 def f_eval(f, m, cur):
-    """cur: callsite id of the span the filter's context reports as current, or None"""
+    """cur: callsite ids of the entered spans the filter's own Context shows it (innermost first)"""
+    cur = cur or []
     t = f["t"]
+    if t == "env":
+        # EnvFilter: a span directive target[s]=L enables, while a span it matches is entered (and was accepted by this layer),
+        # everything up to L; the matching spans themselves are enabled; otherwise the static directives decide
+        dy = f["dy"]
+        if dy and max(l for _, l in dy) >= m["level"]:
+            if m["kind"] == 1 and any(t0 == m["target"] for t0, _ in dy):
+                return True
+            if any(l >= m["level"] for c in cur for t0, l in dy if t0 == c % 3):
+                return True
+        for tid, l in f["st"]:
+            if tid == m["target"]:
+                return m["level"] <= l
+        return f["d"] is not None and m["level"] <= f["d"]
     if t == "level":
         return m["level"] <= f["l"]
     if t == "targets":
@@ -47,7 +61,7 @@ def f_eval(f, m, cur):
     if t == "fn":
         return m["cs"] in f["cs"]
     if t == "dyn":
-        code = 0 if cur is None else cur + 1
+        code = 0 if not cur else cur[0] + 1
         return code in f["allow"] or m["cs"] in f["cs"]
     if t == "all":
         return True
@@ -77,6 +91,9 @@ def coq_filter(f):
         return "(FFn (in_set %s))" % coq_nl(f["cs"])
     if t == "dyn":
         return "(FDyn (dyn_tbl %s %s))" % (coq_nl(f["allow"]), coq_nl(f["cs"]))
+    if t == "env":
+        return "(FEnv [%s] %s [%s])" % ("; ".join("(%d, %d)" % (a, b) for a, b in f["st"]), "None" if f["d"] is None else "(Some %d)" % f["d"],
+                                        "; ".join("(%d, %d)" % (a, b) for a, b in f["dy"]))
     if t == "all":
         return "FAll"
     if t == "and":
@@ -190,6 +207,46 @@ def gen_glob(rng, ev_cs, span_cs):
     return {"t": "fn", "cs": keep}
 
 
+def gen_env_leaf(rng):
+    """an EnvFilter with one or two span directives target[s]=debug|trace (targets distinct) and a few static directives"""
+    tids = rng.sample(range(NT), rng.randint(1, 2))
+    dy = [[t, rng.choice([4, 5])] for t in tids]
+    st = [[t, rng.choice([1, 2, 3])] for t in range(NT) if rng.random() < 0.35]
+    return {"t": "env", "st": st, "d": rng.choice([None, None, 1, 2]), "dy": dy}
+
+
+def gen_env_filter(rng, depth, ev_cs, span_cs):
+    """a per-layer filter with a stateful EnvFilter leaf under and / or / not, in both operand orders"""
+    env = gen_env_leaf(rng)
+    if depth <= 0:
+        return env
+    r = rng.random()
+    other = rng.choice([{"t": "level", "l": rng.choice([1, 2, 3, 3])},
+                        {"t": "targets", "tbl": [[t, rng.choice([2, 3, 5])] for t in rng.sample(range(NT), rng.randint(1, NT))], "d": rng.choice([None, 3])},
+                        {"t": "fn", "cs": sorted(set(rng.sample(range(45), 12) + span_cs))},
+                        {"t": "all"}])
+    sub = gen_env_filter(rng, depth - 1, ev_cs, span_cs) if rng.random() < 0.35 else env
+    if r < 0.36:
+        a, b = (other, sub) if rng.random() < 0.5 else (sub, other)
+        return {"t": "or", "a": a, "b": b}
+    if r < 0.66:
+        a, b = (other, sub) if rng.random() < 0.5 else (sub, other)
+        return {"t": "and", "a": a, "b": b}
+    if r < 0.76:
+        return {"t": "not", "a": {"t": "not", "a": sub}}
+    if r < 0.84:
+        return {"t": "box", "a": sub}
+    return sub
+
+
+def has_env(x):
+    if isinstance(x, dict):
+        return x.get("t") == "env" or any(has_env(v) for v in x.values())
+    if isinstance(x, list):
+        return any(has_env(v) for v in x)
+    return False
+
+
 def gen_agree_filter(rng, t0, ev_cs, span_cs):
     """a static per-layer filter that accepts everything at target t0 (so t0 callsites cache `always`) and
     differs from its siblings elsewhere"""
@@ -286,7 +343,7 @@ def gen_ops(rng, n, ev_cs, span_cs, probe_cs, malformed):
     return ops
 
 
-def gen_ops_deep(rng, n, ev_cs, span_cs):
+def gen_ops_deep(rng, n, ev_cs, span_cs, lifo=False):
     """histories that nest: most new spans are entered at once, so that scopes are several spans deep when events, records
     and further spans happen (what parent() / scope() / from_root() climbing needs to show a rejected ancestor)"""
     ops, nh, live, entered = [], 0, [], []
@@ -307,7 +364,7 @@ def gen_ops_deep(rng, n, ev_cs, span_cs):
         elif r < 0.76 and live:
             ops.append(["R", rng.choice(live)])
         elif r < 0.90 and entered:
-            h = entered.pop(-1 if rng.random() < 0.85 else rng.randrange(len(entered)))
+            h = entered.pop(-1 if lifo or rng.random() < 0.85 else rng.randrange(len(entered)))
             ops.append(["X", h])
         elif live:
             cand = [h for h in live if h not in entered] or live
@@ -381,6 +438,47 @@ def gen_case(rng, idx, kind):
             elif r < 0.45:
                 lay = {"t": "opt", "l": lay}
             stack.append(lay)
+    elif kind == "env":
+        # per-layer filters with a stateful EnvFilter leaf ([s]-span directives at DEBUG / TRACE, span callsites at ERROR..INFO so
+        # that the directive is what enables the DEBUG / TRACE events inside); LIFO histories (the filter's scope is a stack)
+        span_cs = sorted(set(15 + 3 * rng.randrange(3) + t for t in range(NT)) | {15 + 3 * rng.randrange(3) + rng.randrange(NT)})
+        ev_cs = sorted(set(rng.sample(range(0, 15), 3) + [9 + rng.randrange(6), 9 + rng.randrange(6)]))
+        stack = []
+        for _ in range(rng.randint(1, 3)):
+            g.names += 1
+            lay = {"t": "filt", "k": 0, "l": {"t": "rec", "n": g.names, "veto": []}, "f": gen_env_filter(rng, 2, ev_cs, span_cs)}
+            if rng.random() < 0.15:
+                g.names += 1
+                lay = {"t": "filt", "k": 0, "l": {"t": "pair", "o": lay, "i": {"t": "rec", "n": g.names, "veto": []}}, "f": gen_filter(rng, 1, ev_cs, span_cs, allow_dyn=False)}
+            stack.append(lay)
+        if rng.random() < 0.4:
+            g.names += 1
+            stack.insert(rng.randrange(len(stack) + 1), {"t": "rec", "n": g.names, "veto": []})
+    elif kind == "allpsf":
+        # nothing but per-layer-filtered layers, static and context-dependent filters mixed, in random order: the callsite
+        # interest is the Registry's sum of the filters' answers in registration order and no unfiltered layer lifts a `never`
+        stack = []
+        for _ in range(rng.randint(2, 4)):
+            g.names += 1
+            r = rng.random()
+            if r < 0.45:
+                f = rng.choice([{"t": "level", "l": rng.choice([1, 2, 3, 4])},
+                                {"t": "targets", "tbl": [[t, rng.choice([1, 2, 3, 5])] for t in rng.sample(range(NT), rng.randint(1, 2))], "d": None},
+                                {"t": "fn", "cs": sorted(rng.sample(range(45), 15))}])
+            elif r < 0.8:
+                codes = [0] + [c + 1 for c in span_cs]
+                f = {"t": "dyn", "allow": sorted(set(rng.sample(codes, rng.randint(1, len(codes))))), "cs": sorted(set(rng.sample(ev_cs + span_cs, rng.randint(0, 3))))}
+                if rng.random() < 0.3:
+                    f = {"t": "not", "a": f}
+            else:
+                f = gen_filter(rng, 2, ev_cs, span_cs)
+            lay = {"t": "filt", "k": 0, "l": {"t": "rec", "n": g.names, "veto": []}, "f": f}
+            r = rng.random()
+            if r < 0.12:
+                lay = {"t": "vec", "ls": [lay]}
+            elif r < 0.2:
+                lay = {"t": "opt", "l": lay}
+            stack.append(lay)
     elif kind == "agree":
         stack = [g.layer(rng.randint(1, 3), ev_cs, span_cs) for _ in range(rng.randint(2, 5))]
         if g.nf < 2:        # make sure at least two per-layer-filtered recorders sit side by side
@@ -391,9 +489,9 @@ def gen_case(rng, idx, kind):
     else:
         stack = [g.layer(rng.randint(0, 3), ev_cs, span_cs) for _ in range(rng.randint(1, 5))]
     assign_tags(stack)
-    n = rng.choice([6, 10, 16, 24, 40]) if kind not in ("agree", "above") else rng.choice([12, 20, 30, 40])
-    if kind == "deep":
-        ops = gen_ops_deep(rng, n, ev_cs, span_cs)
+    n = rng.choice([6, 10, 16, 24, 40]) if kind not in ("agree", "above", "env") else rng.choice([12, 20, 30, 40])
+    if kind in ("deep", "env"):
+        ops = gen_ops_deep(rng, n, ev_cs, span_cs, lifo=(kind == "env"))
     else:
         ops = gen_ops(rng, n, ev_cs, span_cs, probe_cs, malformed=(rng.random() < 0.25))
     return {"id": idx, "kind": kind, "stack": stack, "ops": ops}
@@ -571,6 +669,10 @@ class Oracle:
                 return sid
         return None
 
+    def view_stack(self, chain):
+        """callsites of the entered spans (innermost first) that this chain of per-layer filters accepted"""
+        return [self.spans[sid]["cs"] for sid in self.stack_iter() if self.acc_chain(sid, chain)]    # (re-entered duplicates are skipped, as by SpanStack::iter)
+
     def scope(self, sid, chain):
         out = []
         while sid is not None and sid in self.spans:
@@ -588,9 +690,7 @@ class Oracle:
             if par is not None and not acc[par]:
                 acc[k] = False
                 continue
-            v = self.view(self.chain_of(k))
-            cur = self.spans[v]["cs"] if v is not None else None
-            acc[k] = f_eval(self.filts[k]["f"], m, cur)
+            acc[k] = f_eval(self.filts[k]["f"], m, self.view_stack(self.chain_of(k)))
         return acc
 
     def bad(self, what, detail, finding=None):
@@ -704,7 +804,7 @@ class Oracle:
     def emission(self, i, code, cs, obs, deliveries):
         m = meta_of(cs)
         what = "E" if code == "E" else "S"
-        globs_ok = all(f_eval(g, m, None) for g in self.globs)
+        globs_ok = all(f_eval(g, m, self.view_stack([])) for g in self.globs)
         if code == "E":
             globs_ok = globs_ok and not any(cs in r["veto"] for r in self.recs)
         acc = self.accept_map(m)
@@ -713,10 +813,7 @@ class Oracle:
         # cross-check of the logged filter evaluations against direct evaluation
         for r, evals in passes:
             for k, r_k in evals:
-                par = self.filts[k]["parent"]
-                v = self.view(self.chain_of(k))
-                cur = self.spans[v]["cs"] if v is not None else None
-                if f_eval(self.filts[k]["f"], m, cur) != r_k and self.clean and not self.full:
+                if f_eval(self.filts[k]["f"], m, self.view_stack(self.chain_of(k))) != r_k and self.clean and not self.full:
                     self.bad("filter-eval", "op %d: filter #%d answered %s on callsite %d, direct evaluation gives %s" % (i, k, r_k, cs, not r_k))
         sid = None
         if code == "S":
@@ -936,6 +1033,7 @@ def corpus_cases():
     return out
 
 
+MODEL_ENV = True       # EnvFilter leaves are part of the Coq model (FEnv)
 REQUIRES = ("From Coq Require Import NArith List Bool.\nFrom TV Require Import Stack.Model Stack.Model2 Stack.Harness.\n"
             "Import ListNotations.\nLocal Open Scope N_scope.\nUnset Printing Records.")
 
@@ -967,12 +1065,12 @@ def run(ctx, only=None, release=None):
     rep.proof = coq_prove(ctx, "C07", ["theories/Properties/C07.vo", "theories/Stack/Harness.vo"])
     # ---- cases
     rng = ctx.rng
-    n = 700 if not ctx.thorough() else 4600
+    n = 800 if not ctx.thorough() else 5200
     if only is not None:
         cases = only
     else:
         cases = corpus_cases()
-        kinds = ["clean"] * 5 + ["agree"] * 7 + ["deep"] * 4 + ["unclean"] * 4 + ["flat"] * 3 + ["outside"] * 2 + ["above"]
+        kinds = ["clean"] * 5 + ["agree"] * 7 + ["deep"] * 4 + ["unclean"] * 4 + ["flat"] * 3 + ["outside"] * 2 + ["above"] + ["env"] * 3 + ["allpsf"] * 3
         for i in range(n):
             cases.append(gen_case(rng, i, kinds[i % len(kinds)]))
         for i in range(n // 6):
@@ -1012,7 +1110,9 @@ def run(ctx, only=None, release=None):
                     items = []
                     for case, impl in zip(cases[j:j + chunk], impls[j:j + chunk]):
                         mx = impl["hint"] if impl["hint"] is not None else 5
-                        if "stack2" in case:
+                        if has_env(case) and not MODEL_ENV:
+                            items.append("(@nil (list obs), @nil bool, (0, 0))")
+                        elif "stack2" in case:
                             h2 = "[" + "; ".join("(%s, %s %d)" % ("TA" if t == 0 else "TB", OPC[c], a) for c, a, t in case["ops"]) + "]"
                             items.append("run2_case %s %s %d %s" % (coq_coll(case["stack"]), coq_coll(case["stack2"]), mx, h2))
                         else:
@@ -1045,7 +1145,7 @@ def run(ctx, only=None, release=None):
             else:
                 orcs = [Oracle(case, impl).run()]
             clean_impl = all(o.clean for o in orcs)
-            if model is not None:
+            if model is not None and (MODEL_ENV or not has_env(case)):
                 outs, bares, bits = model[ci]
                 strip = (lambda obs: [o for o in obs if o.get("call") != "reg"]) if two else (lambda obs: obs)
                 mops = [strip([model_obs_to_json(o) for o in op]) for op in outs]
